@@ -1,11 +1,11 @@
 CONSTANTS
   Fresh <- Fresh3
   PreScopes = {"_SB_"}
-  MaxProd = 4  MaxTables = 1  MaxDepth = 2
-  OpenKinds = {"Device"}  DeclKindsOn = {}
+  MaxProd = 3  MaxTables = 1  MaxDepth = 2
+  OpenKinds = {}  DeclKindsOn = {"Name", "OpRegion"}
   Forms = {}
-  FieldKinds = {"Field", "IndexField", "BankField"}
-  ScopeOn = FALSE  FieldOn = FALSE  MethodFlags = {1, 10}  StmtKinds = {"call1", "call2", "nest", "if"}  MaxStmts = 2
+  FieldKinds = {}
+  ScopeOn = FALSE  FieldOn = FALSE  MethodFlags = {0, 1, 2, 11}  StmtKinds = {"scopecall"}  MaxStmts = 0
   Widths = {}
   ChainItems = 0
   Excluded = {"D1", "D1b", "D2", "D2c", "D3", "D5", "D7", "D8", "D9", "D10", "D11", "D12", "D13"}
